@@ -190,6 +190,8 @@ impl<'r, 'a> St<'r, 'a> {
     fn expected_held(&self, ctx: &Ctx) -> Vec<(Lid, bool)> {
         let mut v: Vec<(Lid, bool)> = ctx.flat.iter().map(|f| (f.lid, ctx.shared)).collect();
         v.sort();
+        // every reachable leaf exactly once, however often the structure reaches it
+        v.dedup();
         v
     }
 
@@ -397,6 +399,7 @@ impl<'r, 'a> St<'r, 'a> {
                 }
                 BodyOp::GateOpen(g) => s.gate_open(*g),
                 BodyOp::GateWait(g) => s.gate_wait(*g),
+                BodyOp::WaitBlocked(t, l) => s.wait_blocked(*t, *l),
                 BodyOp::NonAcq(op, t) => self.nonacq(*op, *t),
             }
         }
@@ -488,6 +491,10 @@ impl<'r, 'a> St<'r, 'a> {
         match op {
             NonAcqOp::Debug => {
                 let txt = format!("{:?}", node);
+                std::hint::black_box(&txt);
+            }
+            NonAcqOp::DebugPretty => {
+                let txt = format!("{:#?}", node);
                 std::hint::black_box(&txt);
             }
             NonAcqOp::DebugLimited(n) => {
@@ -897,6 +904,10 @@ impl<'r, 'a> Th<'r, 'a> {
             Node::PDBoxed(c) => self.run_api(&**c, ctx),
             Node::PDRetry(c) => self.run_api(&**c, ctx),
             Node::RUnit(u) => self.run_api(*u, ctx),
+            Node::MBoxed(c) => self.run_api(c, ctx),
+            Node::MRetry(c) => self.run_api(&**c, ctx),
+            Node::MOwned(_) => self.st.s().report(Clause::Harness, "owned collection over &mut & members cannot be locked through the checked API".into()),
+            Node::MRef(h) => self.run_api(h.get(), ctx),
             Node::Group(_) | Node::Group0 => self.st.s().report(Clause::Harness, "a bare container was generated as a top-level target".into()),
         }
     }
@@ -1008,6 +1019,7 @@ impl<'r, 'a> Th<'r, 'a> {
             Step::GateOpen(g) => s.gate_open(*g),
             Step::GateWait(g) => s.gate_wait(*g),
             Step::Yield => s.yield_point(),
+            Step::WaitBlocked(t, l) => s.wait_blocked(*t, *l),
             Step::Destroy(t, d) => self.destroy(*t, *d),
             Step::InUnwind(_) => unreachable!("happysim: InUnwind is handled by run_step"),
             Step::Key(k) => match k {
